@@ -51,6 +51,10 @@ type History struct {
 // the reference (used after a power-loss image whose admissible states are defined per key).
 var AnyState = []State{nil}
 
+// HBFaults makes NewHB put a FaultFS between the database and the CrashFS (the call log is unaffected: a failed
+// call never reaches the CrashFS).
+var HBFaults bool
+
 // HB builds a History while driving the database.
 type HB struct {
 	H   *History
@@ -72,6 +76,33 @@ type HB struct {
 	// Failed is set when an API call returned an unexpected error or a live check failed.
 	Failed string
 	opN    int
+	// AllowCompactError: a Compact that returns an error is not a failure of the history (fault injection).
+	AllowCompactError bool
+	CompactErrors     int
+	// Faults is the fault injector (nil unless HBFaults was set).
+	Faults *FaultFS
+}
+
+// SyncFailing calls db.Sync with the next fsync failing; the call must return an error and nothing counts as synced.
+func (hb *HB) SyncFailing() {
+	hb.Faults.FailNext("sync")
+	hb.opN++
+	start := hb.Env.Crash.LogLen()
+	hb.Env.Crash.CurAPI = hb.opN
+	hb.H.Iv = append(hb.H.Iv, Interval{Desc: "sync (fsync fails)", Kind: "sync", Start: start, Adm: []State{hb.Ref.Clone()}, SyncIdx: hb.curSync, SyncAt: hb.curSyncAt})
+	err := hb.DB.Sync()
+	hb.H.Iv[len(hb.H.Iv)-1].End = hb.Env.Crash.LogLen()
+	if hb.Faults.Fired == "" {
+		// nothing to sync (e.g. no current segment): the fault did not fire, an ordinary successful Sync
+		hb.Faults.ClearNext()
+		if err == nil {
+			hb.markSynced()
+		}
+		return
+	}
+	if err == nil {
+		hb.fail("Sync returned nil although fsync of %s failed", hb.Faults.Fired)
+	}
 }
 
 // NewHB starts a history on a crash FS holding base (nil = empty). initRef is the reference state of the
@@ -87,6 +118,10 @@ func NewHB(c *Ctx, base crashfs.Image, cfg Config, keys [][]byte, admissible []S
 	}
 	h := &History{Base: base.Clone(), FS: env.Crash, Cfg: cfg, Keys: keys, Writes: map[string][]WriteEv{}}
 	hb := &HB{H: h, Env: env, C: c, Ref: State{}, curSyncAt: -1}
+	if HBFaults {
+		hb.Faults = NewFaultFS(env.FS)
+		env.FS = hb.Faults
+	}
 	anyState := len(admissible) == 1 && admissible[0] == nil
 	if len(admissible) == 0 {
 		admissible = []State{{}}
@@ -258,7 +293,11 @@ func (hb *HB) Compact() pogreb.CompactionResult {
 	hb.closeCompactPart()
 	hb.inCompact = false
 	if err != nil {
-		hb.fail("compact: %v", err)
+		if hb.AllowCompactError {
+			hb.CompactErrors++
+		} else {
+			hb.fail("compact: %v", err)
+		}
 	}
 	if hb.C != nil && cr.CompactedSegments > 0 {
 		hb.C.Stat("compactions_effective", 1)
